@@ -4,6 +4,8 @@ import json, os
 ROOT = os.path.dirname(os.path.dirname(os.path.abspath(__file__)))
 TECH = "bounded symbolic execution of go/ssa + SMT (z3; cvc5 cross-check in thorough), native replay of counterexamples"
 claimed = {
+ "C12": dict(level="Bounded symbolic model checking with engine ghost state per pooled message (released from the return of ReleaseMessage until AcquireMessage hands it out again): double release, any method call on a released message from outside the pool, and a held response/request/hijacked request found released or changed are violations; explored on the real connection for held responses, handler-held and hijacked requests, the retransmission-vs-acknowledgement race (2 threads) and the response writer.",
+             note="Trusted: gosym encoder/scheduler; the same ghost rules are instrumented into the native build for replay. LIFO model of sync.Pool. TCP, block-wise error paths and application goroutines outside.", ref="DESIGN.md §4 C12"),
  "C03": dict(level="Context-bounded symbolic model checking of the real udp/client.Conn (Do/doInternal, writeMessage, Process, handleSpecialMessages, reader loop, handleReq/handle, token and message-ID tables, limiter, coder, pool) over an in-memory session with two concurrent callers and a peer that answers in every decided order/style/multiplicity with symbolic content: each successful call returns its own token and the content produced for it, no response object reaches two callers, a second request with an outstanding token is rejected without displacing the first.",
              note="Trusted: gosym encoder and scheduler model (concurrent witnesses replayed natively under the recorded schedule and select choices), z3. Claimed for the datagram connection with block-wise off; other transports outside.", ref="DESIGN.md §4 C03"),
  "C04": dict(level="Bounded symbolic model checking of the real block-wise layer on both ends of a relay (Do, Handle, processReceivedMessage, continue/start/createSendingMessage, both caches, memfile): for every body length around block boundaries with symbolic bytes, SZX pair and decided fault (duplicate, drop, forged block of another representation), a completed exchange delivers exactly the supplied bytes exactly once with the other options preserved, and an exchange that cannot complete never presents a partial body.",
